@@ -327,6 +327,7 @@ func length_(computer *ComputedStyle, value pr.DimOrS, fontSize pr.Float, pixels
 		// Convert absolute lengths to pixels
 		result = value.Value * pr.LengthsToPixels[unit]
 	case pr.Em, pr.Ex, pr.Ch, pr.Rem:
+		computingFontSize := fontSize >= 0
 		if fontSize < 0 {
 			fontSize = computer.GetFontSize().Value
 		}
@@ -344,7 +345,12 @@ func length_(computer *ComputedStyle, value pr.DimOrS, fontSize pr.Float, pixels
 		case pr.Em:
 			result = value.Value * fontSize
 		case pr.Rem:
-			result = value.Value * computer.rootStyle.fontSize.Value
+			rootFontSize := computer.rootStyle.fontSize.Value
+			if computer.isRootElement() && !computingFontSize {
+				// on the root element, only 'font-size' itself refers to the initial value
+				rootFontSize = fontSize
+			}
+			result = value.Value * rootFontSize
 		}
 
 	default:
